@@ -98,4 +98,80 @@ theorem marginal (U : Nat → Bool) (p1 p2 : Group → Bool) (h12 : ∀ g, p1 g 
       intro pc _
       rw [ih _ (hI.cons pc.2) hU']
 
+theorem mem_worlds_cons {g : Group} {gs : List Group} {w : World} :
+    w ∈ worlds (g :: gs) ↔
+      (∃ pc ∈ g.alts, ∃ w' ∈ worlds gs, w = ⟨pc.1 * w'.weight, pc.2 :: w'.chosen⟩) ∨
+      (∃ w' ∈ worlds gs, w = ⟨noneP g * w'.weight, w'.chosen⟩) := by
+  rw [worlds_cons, List.mem_append, List.mem_flatMap, List.mem_map]
+  constructor
+  · rintro (⟨pc, hpc, hw⟩ | ⟨w', hw', rfl⟩)
+    · obtain ⟨w', hw', rfl⟩ := List.mem_map.1 hw
+      exact Or.inl ⟨pc, hpc, w', hw', rfl⟩
+    · exact Or.inr ⟨w', hw', rfl⟩
+  · rintro (⟨pc, hpc, w', hw', rfl⟩ | ⟨w', hw', rfl⟩)
+    · exact Or.inl ⟨pc, hpc, List.mem_map.2 ⟨w', hw', rfl⟩⟩
+    · exact Or.inr ⟨w', hw', rfl⟩
+
+/-- some outcome of a group has non-zero probability -/
+theorem exists_outcome_ne_zero (g : Group) : (∃ pc ∈ g.alts, pc.1 ≠ 0) ∨ noneP g ≠ 0 := by
+  by_cases h : ∃ pc ∈ g.alts, pc.1 ≠ 0
+  · exact Or.inl h
+  · right
+    have hz : ∀ pc ∈ g.alts, pc.1 = 0 := by
+      intro pc hpc
+      apply Classical.byContradiction
+      intro hne; exact h ⟨pc, hpc, hne⟩
+    have hs : (g.alts.map (·.1)).sum = 0 := by
+      rw [List.map_congr_left hz]; simp
+    have := alts_total g
+    rw [hs] at this
+    intro h0; rw [h0] at this; simp at this
+
+/-- every total choice of non-zero weight of the smaller group list extends to one of the larger group list that
+    selects the same `U`-choices -/
+theorem extend_world (U : Nat → Bool) (p1 p2 : Group → Bool) (h12 : ∀ g, p1 g = true → p2 g = true) :
+    ∀ (G : List Group), (∀ g ∈ G, p1 g = false → ∀ pc ∈ g.alts, U pc.2 = false) →
+      ∀ w1 ∈ worlds (G.filter p1), w1.weight ≠ 0 →
+        ∃ w2 ∈ worlds (G.filter p2), w2.weight ≠ 0 ∧ ∀ c, U c = true → (c ∈ w1.chosen ↔ c ∈ w2.chosen) := by
+  intro G
+  induction G with
+  | nil => intro _ w1 hw1 hx; exact ⟨w1, hw1, hx, fun _ _ => Iff.rfl⟩
+  | cons g G ih =>
+    intro hU w1 hw1 hx
+    have hU' : ∀ g' ∈ G, p1 g' = false → ∀ pc ∈ g'.alts, U pc.2 = false :=
+      fun g' hg' => hU g' (List.mem_cons_of_mem _ hg')
+    cases h1 : p1 g
+    · simp only [List.filter_cons, h1, Bool.false_eq_true, if_false] at hw1
+      obtain ⟨w', hw', hx', hag⟩ := ih hU' w1 hw1 hx
+      cases h2 : p2 g
+      · simp only [List.filter_cons, h2, Bool.false_eq_true, if_false]
+        exact ⟨w', hw', hx', hag⟩
+      · simp only [List.filter_cons, h2, if_true]
+        rcases exists_outcome_ne_zero g with ⟨pc, hpc, hp⟩ | hp
+        · refine ⟨⟨pc.1 * w'.weight, pc.2 :: w'.chosen⟩, mem_worlds_cons.2 (Or.inl ⟨pc, hpc, w', hw', rfl⟩),
+            mul_ne_zero hp hx', ?_⟩
+          intro c hc
+          have : c ≠ pc.2 := by
+            intro e; rw [e, hU g List.mem_cons_self h1 pc hpc] at hc; cases hc
+          simp only [List.mem_cons, this, false_or]
+          exact hag c hc
+        · exact ⟨⟨noneP g * w'.weight, w'.chosen⟩, mem_worlds_cons.2 (Or.inr ⟨w', hw', rfl⟩),
+            mul_ne_zero hp hx', hag⟩
+    · have h2 := h12 g h1
+      simp only [List.filter_cons, h1, if_true] at hw1
+      simp only [List.filter_cons, h2, if_true]
+      rcases mem_worlds_cons.1 hw1 with ⟨pc, hpc, w, hw, rfl⟩ | ⟨w, hw, rfl⟩
+      · have hp : pc.1 ≠ 0 := fun e => hx (by simp [e])
+        have hwx : w.weight ≠ 0 := fun e => hx (by simp [e])
+        obtain ⟨w', hw', hx', hag⟩ := ih hU' w hw hwx
+        refine ⟨⟨pc.1 * w'.weight, pc.2 :: w'.chosen⟩, mem_worlds_cons.2 (Or.inl ⟨pc, hpc, w', hw', rfl⟩),
+          mul_ne_zero hp hx', ?_⟩
+        intro c hc
+        simp only [List.mem_cons, hag c hc]
+      · have hp : noneP g ≠ 0 := fun e => hx (by simp [e])
+        have hwx : w.weight ≠ 0 := fun e => hx (by simp [e])
+        obtain ⟨w', hw', hx', hag⟩ := ih hU' w hw hwx
+        exact ⟨⟨noneP g * w'.weight, w'.chosen⟩, mem_worlds_cons.2 (Or.inr ⟨w', hw', rfl⟩),
+          mul_ne_zero hp hx', hag⟩
+
 end ProbLogProofs.SemMarginal
